@@ -1,11 +1,11 @@
 SPECIFICATION Spec
 CONSTANTS
   Users = {"u1", "u2", "u3"}
-  Issuers = {"u1"}
+  Issuers = {"u1", "u2"}
   MaxD = 2
-  MaxM = 1
-  MaxU = 7
-  Amounts = {0, 1, 2, 3, 4, 5, 6, 7}
+  MaxM = 2
+  MaxU = 4
+  Amounts = {0, 1, 2, 3, 4}
   DataVals = {"a", "b"}
   RecordHist = FALSE
 VIEW View
